@@ -933,8 +933,14 @@ func (e *Exec) loopHavoc(st *State, spec *LoopSpec, vars []*types.Var, run func(
 	sortStrings(keys)
 	for _, key := range keys {
 		k := per[key]
-		if _, ok := e.heapMetas[key]; !ok {
+		hm, ok := e.heapMetas[key]
+		if !ok {
 			continue
+		}
+		if strings.HasPrefix(key, "C_") {
+			e.cellInit(key, hm.vtype)
+		} else {
+			e.heapInit(key, hm.vtype) // the dry run's declaration was rolled back
 		}
 		old := e.heapGet(st, key)
 		nh := e.heapHavoc(st, key)
